@@ -1,8 +1,11 @@
 import OpenFecVerif.Proofs.LdpcEnc
+import OpenFecVerif.Props.C05
+import OpenFecVerif.Proofs.RfcWeights
+import OpenFecVerif.Proofs.RoundTrip
 /-!
 # C15 — the "last repair symbol is null" claim of LDPC-Staircase is truthful
 -/
-open Api
+open Api Rfc5170
 
 /-- executable check of the column-weight condition behind the flag: every symbol but the last belongs
 to an even number of equations and the last repair symbol to exactly one (evaluated by the model on every
@@ -55,3 +58,41 @@ theorem C15_same_for_both_roles {σ : Type} (IO : SymIO σ) (w : World σ) (sid 
 
 -- non-vacuity: k = 2, n = 6, N1 = 4: every source symbol is in all four equations; the check passes
 example : lastNullCheck 6 [[0, 1, 2], [0, 1, 2, 3], [0, 1, 3, 4], [0, 1, 4, 5]] = true := by decide
+
+
+/-- **The flag is truthful for every configuration.**  For every matrix the RFC 5170 construction returns without extra entries and
+with N1 even — i.e. whenever `OF_CRTL_LDPC_STAIRCASE_IS_LAST_SYMBOL_NULL` is reported true — the column-weight condition holds: every
+source column has N1 (even) entries, every repair column but the last has two, the last has one. -/
+theorem C15_lastNullCheck_every_configuration (rn : ℚ → ℚ) (hrn : RN53 rn) (g k r N1 seed : Nat) (hk : 1 ≤ k) (hr : 1 ≤ r)
+    (hk63 : k < 2 ^ 63) (hr63 : r < 2 ^ 63) (ht63 : N1 * k < 2 ^ 63) (h1 : 1 ≤ seed) (h2 : seed ≤ 2147483646) (g' : Nat) (M : Matrix)
+    (h : create rn g k r N1 seed = (g', some M)) (hex : M.extra = false) (hN1 : N1 % 2 = 0) :
+    lastNullCheck (k + r) M.rows = true := by
+  obtain ⟨w1, w2⟩ := RfcWeights.create_weights rn (C05_goodRand rn hrn) g k r N1 seed hk hr hk63 hr63 ht63 ⟨h1, h2⟩ g' M h hex
+  unfold lastNullCheck
+  simp only [Bool.and_eq_true, List.all_eq_true, List.mem_range, beq_iff_eq]
+  constructor
+  · intro e he
+    by_cases hek : e < k
+    · rw [w1 e hek]; exact hN1
+    · have : e = k + (e - k) := by omega
+      rw [this, w2 (e - k) (by omega)]
+      have : e - k + 1 < r := by omega
+      simp [this]
+  · have : k + r - 1 = k + (r - 1) := by omega
+    rw [this, w2 (r - 1) (by omega)]
+    have : ¬ (r - 1 + 1 < r) := by omega
+    simp [this]
+
+/-- … hence, for every accepted configuration for which the flag is true, the encoder's last repair symbol is zero for every source block
+(no per-matrix check left): `C15_truthful` with its hypotheses discharged by the structure theorems of the construction. -/
+theorem C15_truthful_every_configuration {V : Type} [AddCommGroup V] (hV : ∀ v : V, v + v = 0) (rn : ℚ → ℚ) (hrn : RN53 rn)
+    (g k r N1 seed : Nat) (hk : 1 ≤ k) (hr : 1 ≤ r) (hk63 : k < 2 ^ 63) (hr63 : r < 2 ^ 63) (ht63 : N1 * k < 2 ^ 63)
+    (h1 : 1 ≤ seed) (h2 : seed ≤ 2147483646) (g' : Nat) (M : Matrix) (h : create rn g k r N1 seed = (g', some M))
+    (hex : M.extra = false) (hN1 : N1 % 2 = 0) (src : List V) (hs : src.length = k) :
+    (ldpcEncode (grpOps V) k M.rows src).getD (k + r - 1) 0 = 0 := by
+  obtain ⟨q1, q2, q3⟩ := RfcWF.create_wf rn (C05_goodRand rn hrn) g k r N1 seed hk hr hk63 hr63 ht63 ⟨h1, h2⟩ g' M h
+  have hchk := C15_lastNullCheck_every_configuration rn hrn g k r N1 seed hk hr hk63 hr63 ht63 h1 h2 g' M h hex hN1
+  have := C15_truthful hV k M.rows (by omega) (RoundTrip.stair_of_stairCheck k M.rows q3)
+    (by intro row hrow e he; rw [q1]; exact (q2 row hrow).2.1 e he) (by rw [q1]; exact hchk) src hs
+  rw [q1] at this
+  exact this
